@@ -100,6 +100,26 @@ def _convert(block, assign):
     return out
 
 
+def _fold_const_ifs(stmts):
+    """`if True: A else: B` -> A (a flag parameter bound to a literal at this call site)"""
+    out = []
+    for st in stmts:
+        for fld in ("body", "orelse", "finalbody"):
+            sub = getattr(st, fld, None)
+            if isinstance(sub, list) and sub and isinstance(sub[0], ast.stmt) and not isinstance(st, (ast.FunctionDef, ast.AsyncFunctionDef, ast.ClassDef)):
+                setattr(st, fld, _fold_const_ifs(sub))
+        if isinstance(st, ast.If):
+            t, neg = st.test, False
+            while isinstance(t, ast.UnaryOp) and isinstance(t.op, ast.Not):
+                t, neg = t.operand, not neg
+            if isinstance(t, ast.Constant) and isinstance(t.value, (bool, int, type(None))):
+                truth = bool(t.value) != neg
+                out.extend(st.body if truth else st.orelse)
+                continue
+        out.append(st)
+    return out
+
+
 class _Inliner:
     def __init__(self, repo, f, depth):
         self.repo, self.f, self.depth = repo, f, depth
@@ -188,7 +208,7 @@ class _Inliner:
             def visit_FunctionDef(self, n):
                 return n  # helpers nested in the helper are left alone
 
-        return [R().visit(copy.deepcopy(b)) for b in body]
+        return _fold_const_ifs([R().visit(copy.deepcopy(b)) for b in body])
 
     # -- expansion ---------------------------------------------------------------------
     def expr_helpers(self, node, stack, pre):
@@ -231,6 +251,27 @@ class _Inliner:
                     setattr(st, fld, self.block(sub, stack, d))
             for h in getattr(st, "handlers", []) or []:
                 h.body = self.block(h.body, stack, d)
+            # X = [h(..) for t in IT] with h a statement helper: the loop it abbreviates, so that h can be expanded
+            if d > 0 and isinstance(st, ast.Assign) and len(st.targets) == 1 and isinstance(st.targets[0], ast.Name) and isinstance(st.value, ast.ListComp) and len(st.value.generators) == 1 and not st.value.generators[0].is_async and isinstance(st.value.elt, ast.Call):
+                g_ = self.helper_for(st.value.elt, stack)
+                if g_ is not None and not (len(_body_of(g_)) == 1 and isinstance(_body_of(g_)[0], ast.Return)):
+                    gen = st.value.generators[0]
+                    L = st.targets[0].id
+                    tmp = f"{g_.name}__result"
+                    inner = [
+                        ast.Assign(targets=[ast.Name(id=tmp, ctx=ast.Store())], value=st.value.elt, type_comment=None),
+                        ast.Expr(value=ast.Call(func=ast.Attribute(value=ast.Name(id=L, ctx=ast.Load()), attr="append", ctx=ast.Load()), args=[ast.Name(id=tmp, ctx=ast.Load())], keywords=[])),
+                    ]
+                    for c_ in reversed(gen.ifs):
+                        inner = [ast.If(test=c_, body=inner, orelse=[])]
+                    loop = ast.For(target=gen.target, iter=gen.iter, body=inner, orelse=[], type_comment=None)
+                    init = ast.Assign(targets=[ast.Name(id=L, ctx=ast.Store())], value=ast.List(elts=[], ctx=ast.Load()), type_comment=None)
+                    for n_ in (init, loop):
+                        ast.copy_location(n_, st)
+                        ast.fix_missing_locations(n_)
+                    self.changed = True
+                    out.extend(self.block([init, loop], stack, d))
+                    continue
             call = target = None
             kind = None
             if isinstance(st, ast.Assign) and len(st.targets) == 1 and isinstance(st.value, ast.Call):
